@@ -160,7 +160,7 @@ def worker(acc, shard, nshards, tier, seed):
                     if check_lb(acc, E, s1, s2, w, inner, sign):
                         nt = True
         acc.case(sub, nontrivial=nt)
-        if acc.states % 5003 == 1:
+        if not acc.samples or acc.states % 5003 == 1:
             acc.sample({'s1': s1, 's2': s2, 'ndim': nd})
 
 
